@@ -42,6 +42,8 @@ pub struct OutInfo {
 	pub coinbase: bool,
 	/// height of the block that created it (on the branch the ledger belongs to)
 	pub height: u64,
+	/// leaf index in the output MMR of the branch the ledger belongs to
+	pub leaf: u64,
 }
 
 /// Unspent set after a block, derived only from block contents.
@@ -145,6 +147,7 @@ impl Wallet {
 			key_id,
 			coinbase: true,
 			height,
+			leaf: 0,
 		};
 		self.known.insert(ckey(&info.commit), info.clone());
 		(out, kern, info)
@@ -197,6 +200,7 @@ impl Wallet {
 				key_id,
 				coinbase: false,
 				height: 0,
+				leaf: 0,
 			});
 		}
 		let skey = match excess_key {
@@ -266,6 +270,9 @@ pub struct WorldCfg {
 	pub boundary_bias: bool,
 	/// side branches fork off within this many blocks of the trunk tip (0 = anywhere recent)
 	pub fork_near_tip: u64,
+	/// prefer spending old outputs whose MMR sibling leaf is already spent (both leaves of a pair
+	/// spent = data that compaction may remove)
+	pub sibling_bias: bool,
 }
 
 impl WorldCfg {
@@ -286,6 +293,7 @@ impl WorldCfg {
 			reorg_pct: 50,
 			boundary_bias: false,
 			fork_near_tip: 0,
+			sibling_bias: false,
 		}
 	}
 }
@@ -306,6 +314,8 @@ pub struct World {
 	pub nrd_keys: Vec<SecretKey>,
 	/// generation-time probes (boundary cases hit, kernel variants used, ...)
 	pub stats: BTreeMap<String, u64>,
+	/// optional hand-shaped scenario on top of the generated tree (block ids; meaning is the engine's)
+	pub scenario: Vec<usize>,
 }
 
 pub fn header_time_plus(h: &BlockHeader, secs: i64) -> chrono::DateTime<chrono::Utc> {
@@ -353,6 +363,7 @@ impl World {
 			proof_ctr: 0,
 			nrd_keys: vec![],
 			stats: BTreeMap::new(),
+			scenario: vec![],
 		}
 	}
 
@@ -379,7 +390,8 @@ impl World {
 	pub fn draw_txs(&mut self, parent: usize, height: u64) -> (Vec<Transaction>, String) {
 		let mut txs = vec![];
 		let mut note = String::new();
-		if !self.rng.chance(self.cfg.tx_pct, 100) {
+		let late_zone = self.cfg.sibling_bias && height >= 70;
+		if !late_zone && !self.rng.chance(self.cfg.tx_pct, 100) {
 			return (txs, note);
 		}
 		let ledger = self.blocks[parent].ledger.clone();
@@ -390,6 +402,11 @@ impl World {
 			// coinbases that matured exactly at this height go last (popped first)
 			let maturity = global::coinbase_maturity();
 			pool.sort_by_key(|o| (o.coinbase && o.height + maturity == height) as u8);
+		}
+		if self.cfg.sibling_bias && (late_zone || self.rng.chance(3, 4)) {
+			let live: std::collections::BTreeSet<u64> = ledger.values().map(|o| o.leaf).collect();
+			let horizon = global::cut_through_horizon() as u64;
+			pool.sort_by_key(|o| (!live.contains(&(o.leaf ^ 1)) && o.height + horizon < height) as u8);
 		}
 		let mut nrd_used: Vec<CommitKey> = vec![];
 		let n_txs = self.rng.range(1, self.cfg.max_txs as u64) as usize;
@@ -646,6 +663,7 @@ impl World {
 		for i in inputs {
 			ledger.remove(&ckey(&i.commitment()));
 		}
+		let mut leaf = grin_core::core::pmmr::n_leaves(self.blocks[parent].block.header.output_mmr_size);
 		for o in block.outputs() {
 			let k = ckey(&o.commitment());
 			let mut info = self
@@ -656,6 +674,8 @@ impl World {
 				.expect("output not known to wallet");
 			info.height = height;
 			info.coinbase = o.is_coinbase();
+			info.leaf = leaf;
+			leaf += 1;
 			ledger.insert(k, info);
 		}
 		for k in block.kernels() {
@@ -698,6 +718,61 @@ impl World {
 			note,
 		});
 		Ok(id)
+	}
+
+	/// Extend `parent` with one block whose only transaction spends an output of the given class:
+	/// "recent", "pre-hf3" (created before header version 3), "below-tail" (created below the given
+	/// height), "pair-completing" (older than the horizon and its MMR sibling leaf already spent), "any".
+	pub fn extend_with_spend(&mut self, parent: usize, age: &str, tail_height: u64) -> Option<usize> {
+		let height = self.blocks[parent].height + 1;
+		let ledger = self.blocks[parent].ledger.clone();
+		let live: std::collections::BTreeSet<u64> = ledger.values().map(|o| o.leaf).collect();
+		let horizon = global::cut_through_horizon() as u64;
+		let pool = World::spendable(&ledger, height);
+		let cands: Vec<OutInfo> = pool
+			.into_iter()
+			.filter(|o| match age {
+				"recent" => o.height + 6 >= height,
+				"pre-hf3" => o.height < 6,
+				"below-tail" => o.height < tail_height,
+				"pair-completing" => !live.contains(&(o.leaf ^ 1)) && o.height + horizon + 1 < height,
+				"pair-starting" => {
+					// sibling alive, both old: spending this one leaves a half-spent pair
+					live.contains(&(o.leaf ^ 1))
+						&& o.height + horizon + 3 < height
+						&& ledger.values().any(|s| s.leaf == (o.leaf ^ 1) && s.height + horizon + 3 < height && (!s.coinbase || true))
+				}
+				_ => true,
+			})
+			.collect();
+		if cands.is_empty() {
+			return None;
+		}
+		let x = self.rng.pick(&cands).clone();
+		let fee = libtx::tx_fee(1, 2, 1);
+		if x.value <= fee + 2 {
+			return None;
+		}
+		let a = self.rng.range(1, x.value - fee - 1);
+		let (tx, _) = self.wallet.build_tx(
+			&[x.clone()],
+			&[a, x.value - fee - a],
+			None,
+			KernelFeatures::Plain {
+				fee: FeeFields::new(0, fee).ok()?,
+			},
+		);
+		let dt = self.draw_dt();
+		let b = self.assemble(parent, &[tx.clone()], dt, None).ok()?;
+		self.add_block(parent, b, 90, vec![tx], format!("spend-{}", age)).ok()
+	}
+
+	/// Extend `parent` with an empty (coinbase only) block on the given branch.
+	pub fn extend_empty(&mut self, parent: usize, branch: usize) -> Result<usize, String> {
+		let dt = self.draw_dt();
+		let fd = self.draw_free_diff();
+		let b = self.assemble(parent, &[], dt, fd)?;
+		self.add_block(parent, b, branch, vec![], "empty".into())
 	}
 
 	pub fn draw_dt(&mut self) -> i64 {
